@@ -20,6 +20,12 @@ CLAIMED = {
  "C18": dict(level="exploration", technique="exhaustive enumeration of finite table domains + rapid-drawn occupancies; oracle: geometric (file,rank) definitions",
    text="All line-occupancy subsets for all 64 squares (rook 2^14, bishop <=2^13 per square, each in 4 paddings) for rook/bishop/queen attacks, and all squares / pairs / directions / colours for the non-sliding tables, rays, in-between sets, masks, distances, castling rights by square and single-bit shifts are enumerated completely (exhaustive: true for those sub-checks); full-board shifts, bit helpers and deprecated line look-ups are sampled with drawn boards.",
    note="Geometric definitions are the harness' own ray-walking code; RotateR90/L90/R45/L45 are covered only through the deprecated look-ups.", ref="DESIGN.md §2 C18"),
+ "C09": dict(level="exploration", technique="property-based testing (rapid): differential against reference attacker sets and make-and-test legality, all 64 squares x 2 colours x all pseudo-legal moves per generated position",
+   text="For generated legal positions (constructed, seed corpus, playouts, forced en-passant targets on every file incl. a and h) every predicate call is compared with the independent oracle: HasCheck, AttacksTo and IsAttacked for all squares and colours (with exactly the two stated ep conventions added), GivesCheck, IsLegalMove and DoMove+WasLegalMove for all pseudo-legal moves; a panic is a violation.",
+   note="ep conventions read as: capturable = ep target set, capturing side to move and has a pawn beside the pushed pawn (pseudo-legal). GivesCheck not compared for illegal king moves.", ref="DESIGN.md §2 C09"),
+ "C10": dict(level="exploration", technique="property-based testing (rapid): model-based history check (occurrence counting over the game) + three-valued material oracle",
+   text="Shuffle-biased generated game histories: after every ply CheckRepetitions(1|2|3) must equal (count of earlier same-signature positions >= n) and HalfMoveClock the reference clock; insufficient material is checked on generated material configurations (from FEN and reached by captures) in both directions for the classes the property names, unconstrained elsewhere.",
+   note="Signature = placement, side, castling rights, ep field exactly as the property states; history starts at the given FEN.", ref="DESIGN.md §2 C10"),
 }
 
 NOT_YET = "check not built yet in this session (work in progress; see DESIGN.md)"
